@@ -166,14 +166,13 @@ def _compare_buildable(x: Buildable, y: Buildable, check_dag: bool = False):
             registry=_defaults_aware_traverser_registry,
         )
     )
-    x_paths = sorted([elt[1] for elt in x_elements])
-    y_paths = sorted([elt[1] for elt in y_elements])
-
-    if len(x_paths) != len(y_paths):
+    # Compare the two path collections as multisets. (Sorting them would need
+    # a total order on paths, which does not exist when dict keys of different
+    # types, e.g. `0` and `'a'`, occur at the same position.)
+    x_paths = collections.Counter(elt[1] for elt in x_elements)
+    y_paths = collections.Counter(elt[1] for elt in y_elements)
+    if x_paths != y_paths:
       return False
-    for x_path, y_path in zip(x_paths, y_paths):
-      if x_path != y_path:
-        return False
 
   return True
 
